@@ -367,12 +367,35 @@ def _bounded_rollout(S, name, env, H):
                     what="observations stay members of the declared space (not NaN) and rewards finite along the rollout", detail=dict(first_bad_step=int(np.argmin(np.asarray(goods))) if not bool(ok) else None))
 
 
+def _clipobs_stack_replay(model):
+    """R1: ClipObservation on top of an observation-transforming wrapper (RescaleObservation to a range that is not contained in the raw bounds), real classic-control environments,
+    corner-action rollouts: every observation must be a member of the space the outer wrapper declares."""
+    for cls in (CC.MountainCar, CC.Pendulum, CC.Acrobot):
+        for lo_, hi_ in ((-1.0, 1.0), (-5.0, 5.0), (2.0, 3.0)):
+            env = W.ClipObservation(W.RescaleObservation(cls(), min=jnp.asarray(lo_), max=jnp.asarray(hi_)))
+            sp = env.action_space
+            a = jnp.asarray(int(sp.n) - 1) if isinstance(sp, Discrete) else sp.high * jnp.ones(sp.shape)
+            key = jax.random.key(0)
+            s, o, _ = env.reset(key=key)
+            for t in range(60):
+                if not bool(env.observation_space.contains(o)):
+                    return dict(reproduced=True, route="R1 (ClipObservation(RescaleObservation(real env)), constant corner action)", inputs=dict(env=cls.__name__, rescale_to=[lo_, hi_], step=t),
+                                observed=dict(observation=np.asarray(o).tolist(), declared_low=np.asarray(env.observation_space.low).tolist(), declared_high=np.asarray(env.observation_space.high).tolist()))
+                key, k2 = jax.random.split(key)
+                s, o, r, te, tr, _ = env.step(s, a, key=k2)
+    return dict(reproduced=False, note="ClipObservation over RescaleObservation: 9 stacks x 60 steps inside the declared space")
+
+
 def unit_wrappers(S):
     """observation wrappers map into the space they advertise, for every inner observation"""
     fn = "lerax.wrapper.transform_observation"
     S.under_contract(fn + ":ClipObservation", fn + ":RescaleObservation", fn + ":FlattenObservation")
     ctx = Ctx()
-    inner0 = GenericEnv(Box(-jnp.ones((2,)), jnp.ones((2,))), observation_space=Box(jnp.array([-2.0, 0.0]), jnp.array([2.0, 5.0])))
+    # the wrapped object is any environment-LIKE object (possibly a wrapper stack): its `unwrapped` is a different environment with other bounds of the same shape, so a wrapper
+    # that declares or clips to `env.unwrapped`'s space where `env`'s is meant is visible
+    from lvc.generic import GenericInnerEnv
+    inner0 = GenericInnerEnv(Box(-jnp.ones((2,)), jnp.ones((2,))), observation_space=Box(jnp.array([-2.0, 0.0]), jnp.array([2.0, 5.0])))
+    object.__setattr__(inner0, "decoy", GenericEnv(Box(-3 * jnp.ones((2,)), 3 * jnp.ones((2,))), tag="decoy", observation_space=Box(jnp.array([-0.5, 1.0]), jnp.array([0.5, 2.0]))))
     inner = sym(ctx, "env", inner0)
     o = sym(ctx, "o", sd((2,), f32))
 
@@ -381,7 +404,7 @@ def unit_wrappers(S):
         return w.observation_space.low, w.observation_space.high, w.func(oo)
     low, high, out = run(ctx, prog, inner, o)
     hyp = [inner.observation_space.low.at((i,)) <= inner.observation_space.high.at((i,)) for i in range(2)]
-    S.prove("ClipObservation/into-advertised-space", ctx, in_box(out, low, high), hyps=hyp, function=fn + ":ClipObservation", what="ClipObservation's observation lies in the space it advertises for EVERY inner observation (also out-of-space ones)")
+    S.prove("ClipObservation/into-advertised-space", ctx, in_box(out, low, high), hyps=hyp, function=fn + ":ClipObservation", replay=_clipobs_stack_replay, what="ClipObservation's observation lies in the space it advertises for EVERY inner observation (also out-of-space ones)")
     w = W.RescaleObservation(inner0)
     ctx2 = Ctx()
     o2 = sym(ctx2, "o", sd((2,), f32))
